@@ -600,3 +600,15 @@ package proxy
 //@   requires dstHeader != nil
 //@   modifies MV:map[string][]string, MD:map[string][]string
 //@   at call mapupdate:*#1 before [a_backend_trailer_under_its_own_name_or_prefixed] arg0 == dstHeader && ((!forceSetTrailers && has(srcTrailer, arg1) && srcTrailer[arg1] == arg2) || (forceSetTrailers && existsT(o, string, has(srcTrailer, o) && arg1 == "Trailer:" + o && srcTrailer[o] == arg2)))
+
+//@ unit body_rewind frames=on props=C04,C05 nilchecks=on filter=`proxy\.bufferedBody\)\.rewind$`
+//@ // C04/C05 "every attempt receives the complete original body": before a retry the buffered body is put back to its
+//@ // first byte, unconditionally - however the previous attempt consumed it (Read, WriteTo, not at all)
+//@ ghost seeks int
+//@ extern (*bytes.Reader).Seek
+//@   modifies ghost:seeks
+//@   ensures seeks == old(seeks) + 1
+//@ func (*bufferedBody).rewind
+//@   modifies ghost:seeks
+//@   ensures [a_live_body_is_always_put_back_to_its_start] b != nil ==> seeks == old(seeks) + 1
+//@   at call (*bytes.Reader).Seek before [to_offset_zero_from_the_start] arg1 == 0 && arg2 == 0
